@@ -3,7 +3,7 @@ import SqVerif.VNetWFLocal
 L2 — `remote_merge_from`: what it does to a well-formed state (explicit description
 `MergeSpec` of the resulting state), C02.
 -/
-namespace SqVerif.VNet
+namespace SqVerif.VNet.WFP
 open List
 
 /-- what the `for k in range(activeQ)` loop of `remote_merge_from` does -/
@@ -265,4 +265,4 @@ theorem mergeFrom_spec {E} {s : Net} {dst src o : Nat} {sn dn : Node} {q : SQ} {
           simp [this]
     · rw [if_neg hc]
 
-end SqVerif.VNet
+end SqVerif.VNet.WFP
